@@ -726,7 +726,9 @@ pub fn gen_history(r: &mut Rng, g: &GenCfg) -> Vec<Value> {
                             json!({"e": gen_entry(r, g, now), "cls": cls, "cs": r.below(3)})
                         })
                         .collect();
-                    json!({"t":"item","x":[0,0,[]],"y":[0,0,[]],"vals":vals,"hl":true})
+                    // (every third part asks for the receiver's side of the range, have_local = false: the receiver then also
+                    // walks the values to compute its reply - in whatever order the sender listed them)
+                    json!({"t":"item","x":[0,0,[]],"y":[0,0,[]],"vals":vals,"hl": !r.chance(1, 3)})
                 })
                 .collect();
             json!({"op":"msg","parts":parts,"from":1 + r.below(2),"now":now})
